@@ -72,6 +72,17 @@ def check_L(part, job):
     theta, phi = sht.grid
     if theta.shape != (sht.ntheta, sht.nphi):
         part.fail("grid-shape:L=%d" % L, "grid shape %s" % (theta.shape,), case)
+    # the Cartesian form of the grid (what a user samples a function f(x, y, z) on) is the unit vector of (theta, phi):
+    # x = sin(theta) cos(phi), y = sin(theta) sin(phi), z = cos(theta), point for point
+    try:
+        gx, gy, gz = sht.grid_cartesian                     # three arrays of the grid's shape
+        gc = np.stack([np.asarray(gx, dtype=float), np.asarray(gy, dtype=float), np.asarray(gz, dtype=float)], axis=-1)
+        want_gc = np.stack([np.sin(theta) * np.cos(phi), np.sin(theta) * np.sin(phi), np.cos(theta)], axis=-1).reshape(-1, 3)
+        if gc.reshape(-1, 3).shape != want_gc.shape or not (np.abs(gc.reshape(-1, 3) - want_gc).max() <= 1e-12):
+            part.fail("grid-cartesian:L=%d" % L, "L=%d: grid_cartesian is not (sin theta cos phi, sin theta sin phi, cos theta) of the angular grid (max dev %.3g)"
+                      % (L, float(np.abs(gc.reshape(-1, 3) - want_gc).max()) if gc.reshape(-1, 3).shape == want_gc.shape else np.inf), case)
+    except Exception as e:
+        part.fail("grid-cartesian-raise", "grid_cartesian raised %r at L=%d" % (e, L), case)
     lmc = ylm.lm_complex(L)
     lmr = ylm.lm_real(L)
     sel = channels(L, Lb)
